@@ -398,3 +398,27 @@ def corruptions(data, rng, budget=12):
         out.append(("splice", data[:cut] + data))
     out.append(("garbage", bytes(rng.randrange(256) for _ in range(rng.randint(1, 40)))))
     return out
+
+
+def frames_wellformed(data):
+    """Structural check of protocol-4 framing, no execution: every FRAME's announced byte range must end inside
+    the pickle, on an opcode boundary, and must not contain another FRAME header.  Returns None or a
+    description of the first fault."""
+    try:
+        ops = [(op.name, arg, pos) for op, arg, pos in pickletools.genops(data)]
+    except Exception as e:
+        return f"not parseable: {e}"
+    starts = {pos for _, _, pos in ops}
+    end_of_pickle = ops[-1][2] + 1 if ops and ops[-1][0] == "STOP" else len(data)
+    starts.add(end_of_pickle)
+    frames = [(pos, arg) for name, arg, pos in ops if name == "FRAME"]
+    for pos, length in frames:
+        end = pos + 9 + length
+        if end > end_of_pickle:
+            return f"FRAME at {pos} announces {length} bytes, which runs past the end of the pickle"
+        if end not in starts:
+            return f"FRAME at {pos} announces {length} bytes and ends at {end}, in the middle of an opcode"
+        inner = [p2 for p2, _ in frames if pos < p2 < end]
+        if inner:
+            return f"FRAME at {pos} contains the FRAME header at {inner[0]}"
+    return None
